@@ -28,8 +28,8 @@ CLS_JUMP = 'jump_in_handler_of_try_with_finally'
 
 TIERS = {
     # exhaustive sub-space, sampled space, cap on the sampled space, decision-vector bounds
-    'quick': dict(exh=(4, 3, False), big=(5, 3, True), cap=80000, dec_len=7, dec_runs=48),
-    'thorough': dict(exh=(5, 3, False), big=(7, 4, True), cap=1400000, dec_len=9, dec_runs=96),
+    'quick': dict(exh=(4, 3, False), big=(5, 3, True), cap=80000, dec_len=7, dec_runs=48, progen_skel=150, progen_rand=60),
+    'thorough': dict(exh=(5, 3, False), big=(7, 4, True), cap=1400000, dec_len=9, dec_runs=96, progen_skel=1500, progen_rand=600),
 }
 
 
@@ -278,6 +278,30 @@ def _repo_worker(args):
     return process(cases, driver_ok, False)
 
 
+def _progen_worker(args):
+    """Programs of the shared generators (harness/progen.py): their function `f` as one more syntactic + executable corpus."""
+    kind, seed, n, driver_ok, dec_len, dec_runs = args
+    import random
+    sys.path.insert(0, common.REPO)
+    rng = random.Random(seed)
+    if kind == 'skeleton':
+        progs = progen.skeleton_programs(5, 3, cap=n, rng=rng, rich=True)
+    else:
+        progs = progen.random_programs(rng, n, size=14)
+    cases = []
+    for p in progs:
+        try:
+            tree = ast.parse(p.source)
+        except SyntaxError:
+            continue
+        for node in tree.body:
+            if isinstance(node, ast.FunctionDef) and node.name == p.fname:
+                cases.append(Case('progen:%s:%s' % (kind, p.key), ast.unparse(node)))
+    st = process(cases, driver_ok, True, dec_len, dec_runs)
+    st['fails'] = st['fails'][:40]
+    return st
+
+
 def _pool():
     n = min(16, os.cpu_count() or 4)
     return multiprocessing.get_context('fork').Pool(n)
@@ -353,6 +377,17 @@ def check(run):
         absorb(run, st, 'repo'); repo_st = st
         run.cov['repo_functions'] = {k: st[k] for k in ('programs', 'graphs', 'graph_equal', 'both_error', 'error_kinds',
                                                          'skipped_other', 'wf_ok', 'pc_ok', 'pc_rejected_expected', 'max_nodes')}
+        merge_stats(total, dict(st, fails=[]))
+
+        # ---- programs of the shared generators (progen): skeletons (stride-sampled there) and typed random programs
+        st = new_stats()
+        jobs = [('skeleton', run.seed * 100 + k, cfg['progen_skel'], run.driver_ok, cfg['dec_len'], cfg['dec_runs']) for k in range(16)] + \
+               [('random', run.seed * 100 + 50 + k, cfg['progen_rand'], run.driver_ok, cfg['dec_len'], cfg['dec_runs']) for k in range(16)]
+        for r in pool.map(_progen_worker, jobs):
+            merge_stats(st, r)
+        absorb(run, st, 'progen')
+        run.cov['progen_programs'] = {k: st[k] for k in ('programs', 'graphs', 'graph_equal', 'both_error', 'runs', 'walk_equal', 'pc_ok',
+                                                          'pc_rejected_expected', 'max_nodes')}
         merge_stats(total, dict(st, fails=[]))
 
         # ---- skeleton spaces
